@@ -556,3 +556,110 @@ RECIPES = [
     return _area
 """, "area: one loop over a generator of (segment, column) pairs"),
 ]
+
+
+# ---- pass 4: the zero-stuffed buffer allocated and filled in a helper / from the centred array / sample by sample
+_RS_STUFF = """    shape = [*data.shape]
+    if p > 1:
+        shape[-1] = ln * p
+        updata1 = np.zeros(shape)
+        updata1[..., ::p] = data - m
+    else:
+        updata1 = data - m
+"""
+
+
+def _rs_helper(first="", grow="step"):
+    return f"""    def _insert_zeros(x, step):
+        if step > 1:
+            dims = [*x.shape]
+            dims[-1] *= {grow}
+            out = np.zeros(dims)
+            out[..., {first}::step] = x
+            return out
+        return x
+
+    shape = [*data.shape]
+    updata1 = _insert_zeros(data - m, p)
+"""
+
+
+def _rs_centred(ext="x0.shape[-1] * p", red="np.mean(data, axis=-1, keepdims=True)"):
+    return f"""    x0 = data - {red}
+    shape = [*x0.shape]
+    if p > 1:
+        shape[-1] = {ext}
+        updata1 = np.zeros(shape)
+        updata1[..., ::p] = x0
+    else:
+        updata1 = x0
+"""
+
+
+def _rs_loop(pos="j * p", count="ln"):
+    return f"""    shape = [*data.shape]
+    if p > 1:
+        shape[-1] = ln * p
+        updata1 = np.zeros(shape)
+        x0 = data - m
+        for j in range({count}):
+            updata1[..., {pos}] = x0[..., j]
+    else:
+        updata1 = data - m
+"""
+
+
+def _rs_pad_helper(slot="nz : nz + n : step"):
+    return f"""    def _pad_and_stuff(x, step, nz):
+        n = x.shape[-1] * step
+        out = np.zeros((*x.shape[:-1], n + 2 * nz))
+        out[..., {slot}] = x
+        return out
+
+    nz = M // 2
+    updata1 = _pad_and_stuff(data - m, p, nz)
+"""
+
+
+RECIPES += [
+    ("C19", "neutral", [], D, _RS_STUFF, _rs_helper(), "resample: the zero-stuffed buffer allocated and filled in a helper that sizes it from the centred array it is given (dims[-1] *= step)"),
+    ("C19", "break", ["C19-R3"], D, _RS_STUFF, _rs_helper(first="1"), "resample: helper that stores the samples one slot late"),
+    ("C19", "neutral", [], D, _RS_STUFF, _rs_centred(), "resample: buffer shape taken from the centred array (data - mean keeps the shape of data: broadcasting)"),
+    ("C19", "neutral", [], D, _RS_STUFF, _rs_centred(red="data.mean(axis=-1)[..., None]"), "resample: mean as data.mean(axis=-1)[..., None], buffer shape from the centred array"),
+    ("C19", "break", ["C19-R3"], D, _RS_STUFF, _rs_centred(red="np.mean(data, axis=0, keepdims=True)"), "resample: centred with the mean along the first axis (buffer shape from the centred array)"),
+    ("C19", "neutral", [], D, _RS_STUFF, _rs_loop(), "resample: zero buffer filled sample by sample in a counted loop"),
+    ("C19", "break", ["C19-R3"], D, _RS_STUFF, _rs_loop(pos="j * p + 1"), "resample: loop that stores sample j one slot late"),
+    ("C19", "break", ["C19-R3"], D, _RS_STUFF, _rs_loop(pos="j * q"), "resample: loop that stores sample j at slot j q"),
+    ("C19", "neutral", [], D, _RS_STUFF_PAD, _rs_pad_helper(), "resample: one helper allocates the padded buffer and stores the samples (nz : nz + n : step)"),
+    ("C19", "break", ["C19-R3"], D, _RS_STUFF_PAD, _rs_pad_helper(slot="nz + 1 : nz + 1 + n : step"), "resample: padded buffer built in a helper, samples one slot late"),
+]
+
+
+_RS_TAIL = """    updata = signal.lfilter(fir, 1, updata1, axis=-1)
+    updata = updata[..., M:]
+
+    # downsample:
+    n = int(np.ceil(ln * p / q))
+    if q > 1:
+        shape[-1] = n
+        RData = np.zeros(shape)
+        RData = updata[..., ::q] + m
+    else:
+        RData = updata + m
+"""
+
+
+def _rs_mean_first(start="M"):
+    return f"""    updata = signal.lfilter(fir, [1.0], updata1) + m
+    n = int(np.ceil(ln * p / q))
+    RData = updata[..., {start}::q]
+"""
+
+
+RECIPES += [
+    ("C19", "neutral", [], D, _RS_TAIL, _rs_mean_first(), "resample: the mean added to the filter output before lag removal and decimation in one slice (broadcasting comes first)"),
+    ("C19", "break", ["C19-R3"], D, _RS_TAIL, _rs_mean_first("M + 1"), "resample: mean added first, lag slice one sample late"),
+    ("C19", "neutral", [], D, "        updata1 = np.zeros(shape)\n", "        updata1 = np.empty(shape)\n        updata1[...] = 0.0\n", "resample: buffer allocated with np.empty and zeroed as a whole"),
+    ("C19", "break", ["C19-R3"], D, "        updata1 = np.zeros(shape)\n", "        updata1 = np.empty(shape)\n", "resample: samples stuffed into an uninitialised buffer"),
+    ("C19", "neutral", [], D, "        updata1 = np.zeros(shape)\n", "        updata1 = np.zeros_like(data, shape=shape, dtype=float)\n", "resample: buffer from np.zeros_like(data, shape=...)"),
+]
